@@ -25,7 +25,7 @@ use crate::debug;
 use crate::error::{Error, ErrorKind};
 use crate::memory::{Gc, Root};
 use crate::object::{ObjFunction, ObjString};
-use crate::scanner::{Scanner, Token, TokenKind};
+use crate::scanner::{self, Scanner, Token, TokenKind};
 use crate::value::{self, Value};
 use crate::vm::Vm;
 
@@ -754,6 +754,11 @@ impl<'a> Parser<'a> {
         } else {
             let result = (|| Some(Path::new(&path.source).file_name()?.to_str()?))();
             if let Some(filename) = result {
+                if scanner::is_reserved_word(filename) {
+                    // The variable would shadow what the word means (`super`, `self`, ...).
+                    self.error("Module name is a reserved word: name the module with 'as'.");
+                    return;
+                }
                 Token::from_string_and_line(filename, self.current.line)
             } else {
                 self.error("Expected a module path.");
